@@ -493,3 +493,27 @@ def finish(ctx: Ctx, level='proof'):
         print('  first violation: %s' % json.dumps(ctx.violations[0], default=str)[:800])
     sys.stdout.flush()
     return rc
+
+
+def install_rename_aliases():
+    """A private helper of the library that was merely renamed (identical body, see translator.py2lean.normalise) stays reachable
+    under the name the harness knows: the old name is added as an alias next to the new one (never over an existing attribute)."""
+    import importlib
+    from translator import py2lean
+    done = []
+    try:
+        ren = py2lean.compute_renames()
+    except Exception:
+        return done
+    for relpath, items in ren.items():
+        try:
+            mod = importlib.import_module('numdifftools.' + relpath[:-3])
+        except Exception:
+            continue
+        for scope, new, old in items:
+            owner = getattr(mod, scope, None) if scope else mod
+            if owner is None or old in vars(owner) or new not in vars(owner):
+                continue
+            setattr(owner, old, vars(owner)[new])
+            done.append('%s: %s%s -> %s' % (relpath, scope + '.' if scope else '', old, new))
+    return done
